@@ -34,7 +34,7 @@ fn build(cfg: &[u16]) -> Built {
         (K::ModeUser, 8),
         (K::Invite, 8),
         (K::Away, 5),
-        (K::Nick, 5),
+        (K::Nick, 12),
         (K::Part, 5),
         (K::Oper, 6),
         (K::Kick, 4),
